@@ -319,10 +319,10 @@ func pEmit(prop, test string, c any, out *pOutcome) {
 // ---------------------------------------------------------------------------------------
 
 func pIdx(t *rapid.T, label string, n int) int {
+	x := rapid.Uint64().Draw(t, label) // always draw: a Custom generator must consume data
 	if n <= 1 {
 		return 0
 	}
-	x := rapid.Uint64().Draw(t, label)
 	if x < uint64(n) {
 		return int(x)
 	}
